@@ -150,6 +150,10 @@ Proof.
       - destruct (x_date_wk _ ad Sd B) as (w & dd & E). eauto. }
   2:{ intros B. apply x_date_notwk. exact B. }
   fold q.
+  assert (P0 : match zo_cz zo with Some (h, m) => negb (valid_zone (mkZone h m)) | None => false end = false).
+  { destruct zo as [fz|]; cbn [zo_cz]; [|reflexivity].
+    destruct (binds "time_zone_utc" (f_parse fz)); reflexivity. }
+  rewrite P0.
   assert (P2 : match zo_cz zo with Some (h, m) => to_time_zone md q (mkZone h m) | None => Some q end = Some q).
   { destruct zo as [fz|]; cbn [zo_cz]; [|reflexivity].
     destruct (binds "time_zone_utc" (f_parse fz)) eqn:U; [|reflexivity].
